@@ -208,6 +208,23 @@ fn c15_patterns(c: &mut Ctx) {
                 if !okm {
                     c.violation("C15:pattern:poll", format!("poll header machine on length bytes {} gave {:?}, reference {:?}", hex_short(&bytes), o_short(&run.out), refd), case());
                 }
+                // the same with a Pending before every byte and the future re-created from the state each time
+                let sched: Vec<crate::io::Step> = (0..hb.len() + 1).flat_map(|_| [crate::io::Step::Pending, crate::io::Step::Give(1)]).collect();
+                let mut st2 = v3::PollPacketState::default();
+                let mut rd2 = ScriptedReader::new(&hb, &sched);
+                rd2.keep_log = false;
+                let (run2, _) = drive_poll_generic(&mut st2, &mut rd2, PollMode::Recreate, 64, None, Pkt::V3, Er::V3);
+                let same = match (&run.out, &run2.out) {
+                    (Drive::Done(a), Drive::Done(b)) => a == b && rd.pos == rd2.pos,
+                    _ => false,
+                };
+                if !same {
+                    c.violation(
+                        "C15:pattern:poll-suspended",
+                        format!("poll header machine on length bytes {} suspended before every byte gave {:?} after {} bytes, uninterrupted {:?} after {} bytes", hex_short(&bytes), o_short(&run2.out), rd2.pos, o_short(&run.out), rd.pos),
+                        case().p("schedule", "P g1 repeated"),
+                    );
+                }
             }
         }
     }
